@@ -13,6 +13,8 @@ import (
 func init() { register("C17", checkC17) }
 
 func checkC17(p *load.Program, r *kit.Report) {
+	importRules(p, r, "C11", "load merges the stored list of invalid hashes with the configured one: a copy into a destination of length 0 copies nothing and every mark made at run time is lost with the restart", 1,
+		func(o *kit.Obligation) bool { return strings.Contains(o.Construct, "Repository.load/") }, "COPY-INTO-EMPTY")
 	r.Rule("REMOVE-ONE", "MarkHeaderNotInvalid takes exactly the matching hash out of the invalid list", 1)
 	checkUnmarkRemovesOne(p, r, "REMOVE-ONE")
 	importRules(p, r, "C01", "after a marked header is trimmed the best chain falls back to the heaviest remaining chain: Longest() compares every candidate with the best one found so far", 1, nil, "ARGMAX")
